@@ -301,7 +301,7 @@ Lemma walk_step T D f b tail first : wf_block b = true -> tables_ok T D = true -
             else Ok [entry_of T D b]
   | Some (c0, t0) =>
     if (zlist_eqb (b_cat b) c0 && (b_tid b =? t0)) || (4 * lenZ tail =? 0) then
-      if 4 * lenZ tail =? 0 then Ok [entry_of T D b] else Ok []
+      if (4 * lenZ tail =? 0) && negb (zlist_eqb (b_cat b) c0 && (b_tid b =? t0)) then Ok [entry_of T D b] else Ok []
     else if 0 <? 4 * lenZ tail
          then walk_cont (walk f T D tail (4 * lenZ tail) first) (entry_of T D b)
          else Ok [entry_of T D b]
@@ -356,7 +356,7 @@ Qed.
 
 Definition repeat_tail (b0 : block) (tail : list word) : Prop :=
   exists b' tail', tail = blockw b' ++ tail' /\ wf_block b' = true
-                   /\ b_cat b' = b_cat b0 /\ b_tid b' = b_tid b0 /\ tail' <> [].
+                   /\ b_cat b' = b_cat b0 /\ b_tid b' = b_tid b0.
 
 Lemma walk_rest T D b0 : tables_ok T D = true -> forall bs tail fuel,
   forallb wf_block bs = true ->
@@ -367,13 +367,11 @@ Lemma walk_rest T D b0 : tables_ok T D = true -> forall bs tail fuel,
   = Ok (map (entry_of T D) bs).
 Proof.
   intros Hok. induction bs as [|b bs IH]; intros tail fuel Hwf Hid Hf Ht.
-  - destruct Ht as [[_ Hn]|(b' & tail' & -> & Hb' & Hc & Hi & Hne)]; [congruence|].
+  - destruct Ht as [[_ Hn]|(b' & tail' & -> & Hb' & Hc & Hi)]; [congruence|].
     destruct fuel as [|f]; [simpl in Hf; lia|].
     change (tbw [] ++ (blockw b' ++ tail')) with (blockw b' ++ tail').
     rewrite (walk_step T D f b' tail' _ Hb' Hok).
-    rewrite Hc, Hi, zlist_eqb_refl, Z.eqb_refl. cbn [andb orb].
-    destruct (4 * lenZ tail' =? 0) eqn:E; [|reflexivity].
-    apply Z.eqb_eq in E. exfalso. apply Hne. apply lenZ_zero_nil. lia.
+    rewrite Hc, Hi, zlist_eqb_refl, Z.eqb_refl. cbn [andb orb negb]. rewrite andb_false_r. reflexivity.
   - simpl in Hwf, Hid, Hf. apply andb_true_iff in Hwf as [Hb Hbs].
     apply orb_false_iff in Hid as [Hib Hibs].
     destruct fuel as [|f]; [lia|].
@@ -481,12 +479,11 @@ Lemma wf_unpack T D f : wf T D f = true ->
     /\ forallb (fun b => zlist_eqb (b_model b) (b_model b0)) (b0 :: rest0) = true
     /\ forallb (fun tb => forallb (fun b => zlist_eqb (b_tau b) (b_tau (hd_block tb))) tb) (f_times f) = true
     /\ existsb (id_eqb b0) rest0 = false
-    /\ nodup_keys (map (entry_of T D) (b0 :: rest0)) = true
-    /\ forallb (fun b => b_nz b <=? max_layers) (b0 :: rest0) = true.
+    /\ nodup_keys (map (entry_of T D) (b0 :: rest0)) = true.
 Proof.
   unfold wf. intros H. apply andb_true_iff in H as [Hs H].
   destruct (f_times f) as [|[|b0 rest0] ts] eqn:E; try discriminate.
-  apply andb_true_iff in H as [H H6]. apply andb_true_iff in H as [H H5]. apply andb_true_iff in H as [H H4].
+  apply andb_true_iff in H as [H H5]. apply andb_true_iff in H as [H H4].
   apply andb_true_iff in H as [H H3]. apply andb_true_iff in H as [H H2]. apply negb_true_iff in H4.
   exists b0, rest0, ts. repeat split; assumption.
 Qed.
@@ -520,14 +517,6 @@ Qed.
 Lemma markers_ok tb : forallb (fun q => q_m0 q =? q_m2 q) (map pblock_of tb) = true.
 Proof. induction tb as [|b tb IH]; [reflexivity|]. cbn [map forallb pblock_of q_m0 q_m2]. rewrite Z.eqb_refl. exact IH. Qed.
 
-Lemma layers_ok t0 : forallb (fun b => b_nz b <=? max_layers) t0 = true ->
-  existsb (fun q => max_layers <? p_nz (q_hdr q)) (map pblock_of t0) = false.
-Proof.
-  induction t0 as [|b t0 IH]; intros H; [reflexivity|]. simpl in H. apply andb_true_iff in H as [H1 H2].
-  cbn [map existsb pblock_of q_hdr hdr_of p_nz]. rewrite (IH H2).
-  apply Z.leb_le in H1. replace (max_layers <? b_nz b) with false by (symmetry; apply Z.ltb_ge; exact H1). reflexivity.
-Qed.
-
 Lemma var_of_hdr_block T D b : tables_ok T D = true -> var_of_hdr T D (hdr_of b) = var_of T D b.
 Proof.
   intros Hok. unfold var_of_hdr, var_of, hdr_of. cbn [p_cat p_tid p_unit p_resv p_nx p_ny p_nz p_start].
@@ -538,11 +527,11 @@ Lemma tau_of_pblocks tb : p_tau (hd_pblock (map pblock_of tb)) = b_tau (hd_block
 Proof. destruct tb as [|b tb]; reflexivity. Qed.
 
 (* ---- the reader model presents exactly the content ------------------------------------------------- *)
-Theorem read_enc T D f : wf T D f = true -> tables_ok T D = true -> one_by_two f = false ->
+Theorem read_enc T D f : wf T D f = true -> tables_ok T D = true ->
   impl_open T D (enc f) (4 * lenZ (enc f)) = Ok (view_of T D f).
 Proof.
-  intros Hwf Hok Hdef.
-  destruct (wf_unpack T D f Hwf) as (b0 & rest0 & ts & Et & Hs & Hmeta & Hmodel & Htau & Hid & Hnd & Hnz).
+  intros Hwf Hok.
+  destruct (wf_unpack T D f Hwf) as (b0 & rest0 & ts & Et & Hs & Hmeta & Hmodel & Htau & Hid & Hnd).
   destruct (shape_lens f Hs) as (L1 & L2 & Hb).
   rewrite (enc_flat f Hs). unfold flat.
   destruct (flat_header (f_ftype f) (f_title f) (bodyw f) L1 L2) as (F1 & F2 & F3 & F4 & F5 & F6 & F7 & F8).
@@ -568,14 +557,7 @@ Proof.
     simpl in Hw1. apply andb_true_iff in Hw1 as [Hwb1 Hwr1].
     destruct (meta_eqb_true _ _ Hmb) as (_ & Hc & Hi & _).
     exists b1, (tbw r1 ++ concat (map tbw ts')). repeat split; try assumption.
-    - cbn [map concat]. rewrite tbw_cons. reflexivity.
-    - intros E. destruct (tbw_app_nil r1 _ Hwr1 E) as [-> E2].
-      destruct rest0; [|discriminate].
-      destruct ts' as [|t2 ts'']; [unfold one_by_two in Hdef; rewrite Et in Hdef; discriminate|].
-      inversion Hall2 as [|? ? [Hm2 Hw2] _]. subst. destruct t2 as [|b2 r2]; [discriminate|].
-      cbn [map concat] in E2. rewrite tbw_cons in E2. simpl in Hw2. apply andb_true_iff in Hw2 as [Hw2 _].
-      pose proof (blockw_nonnil b2 (tbw r2 ++ concat (map tbw ts'')) Hw2) as P.
-      rewrite ?app_assoc in P, E2. rewrite E2 in P. unfold lenZ in P. simpl in P. clear - P. lia. }
+    cbn [map concat]. rewrite tbw_cons. reflexivity. }
   assert (Hpos : 0 < tszZ es).
   { pose proof Hlen as Hl0. rewrite Et in Hl0. inversion Hl0 as [|? ? H0 _]. rewrite <- H0.
     rewrite <- (app_nil_r (tbw (b0 :: rest0))), tbw_cons. apply (blockw_nonnil b0 _ Hb0). }
@@ -611,9 +593,6 @@ Proof.
   { rewrite Et at 1. cbn [map hd]. apply forallb_forall. intros pb Hin. apply in_map_iff in Hin as (tb & <- & Hin).
     destruct (HallF tb Hin) as [H1 _]. exact (same_ids_meta (b0 :: rest0) tb H1). }
   rewrite Hsame. cbn [negb].
-  assert (Hlay : existsb (fun q => max_layers <? p_nz (q_hdr q)) (hd [] (map (map pblock_of) (f_times f))) = false).
-  { rewrite Et. cbn [map hd]. exact (layers_ok (b0 :: rest0) Hnz). }
-  rewrite Hlay.
   assert (Hmk : forallb (forallb (fun q => q_m0 q =? q_m2 q)) (map (map pblock_of) (f_times f)) = true).
   { apply forallb_forall. intros pb Hin. apply in_map_iff in Hin as (tb & <- & _). apply markers_ok. }
   rewrite Hmk. cbn [negb].
@@ -667,7 +646,7 @@ Proof. induction l; simpl; [reflexivity|]. rewrite IHl. reflexivity. Qed.
 Theorem write_view T D f : wf T D f = true -> impl_write (view_of T D f) = enc f.
 Proof.
   intros Hwf.
-  destruct (wf_unpack T D f Hwf) as (b0 & rest0 & ts & Et & Hs & Hmeta & Hmodel & Htau & Hid & Hnd & Hnz).
+  destruct (wf_unpack T D f Hwf) as (b0 & rest0 & ts & Et & Hs & Hmeta & Hmodel & Htau & Hid & Hnd).
   destruct (shape_lens f Hs) as (L1 & L2 & Hb). rewrite forallb_concat in Hb.
   rewrite (enc_flat f Hs). unfold flat, impl_write, view_of, tb0.
   cbn [r_ftype r_title r_model r_vars r_taus r_data].
@@ -687,10 +666,10 @@ Proof.
 Qed.
 
 (* reading without scaling and writing back reproduces the bytes *)
-Theorem read_write_bytes T D f : wf T D f = true -> tables_ok T D = true -> one_by_two f = false ->
+Theorem read_write_bytes T D f : wf T D f = true -> tables_ok T D = true ->
   exists v, impl_open T D (enc f) (4 * lenZ (enc f)) = Ok v /\ impl_write v = enc f.
 Proof.
-  intros Hwf Hok Hd. exists (view_of T D f). split; [apply read_enc; assumption|apply write_view; assumption].
+  intros Hwf Hok. exists (view_of T D f). split; [apply read_enc; assumption|apply write_view; assumption].
 Qed.
 
 (* a view is written as the file with these blocks *)
@@ -704,12 +683,12 @@ Definition file_of (v : view) : bfile :=
 
 (* writing any bpch-convention view and reading it back returns it *)
 Theorem write_read T D v :
-  wf T D (file_of v) = true -> tables_ok T D = true -> one_by_two (file_of v) = false ->
+  wf T D (file_of v) = true -> tables_ok T D = true ->
   view_of T D (file_of v) = v ->
   impl_write v = enc (file_of v)
   /\ impl_open T D (impl_write v) (4 * lenZ (impl_write v)) = Ok v.
 Proof.
-  intros Hwf Hok Hd Hv.
+  intros Hwf Hok Hv.
   assert (Hw : impl_write v = enc (file_of v)).
   { rewrite <- Hv at 1. apply write_view. exact Hwf. }
   split; [exact Hw|]. rewrite Hw. rewrite <- Hv at 3. apply read_enc; assumption.
